@@ -108,12 +108,25 @@ func probeFilterFn(n string) pongo2.FilterFunction {
 	}
 }
 
+// extra probes: a registry of well over a hundred tags and filters (an application with
+// many custom tags), so that positions in the registry cross whatever size an engine's
+// ban bookkeeping may have been built around
+var extraProbeTags, extraProbeFilters []string
+
 func init() {
 	for _, n := range []string{"probe_t0", "probe_t1"} {
 		pongo2.RegisterTag(n, probeTagParser(n))
 	}
 	for _, n := range []string{"probe_f0", "probe_f1"} {
 		pongo2.RegisterFilter(n, probeFilterFn(n))
+	}
+	for i := 2; i < 100; i++ {
+		t, f := fmt.Sprintf("probe_t%d", i), fmt.Sprintf("probe_f%d", i)
+		pongo2.RegisterTag(t, probeTagParser(t))
+		pongo2.RegisterFilter(f, probeFilterFn(f))
+		extraProbeTags = append(extraProbeTags, t)
+		extraProbeFilters = append(extraProbeFilters, f)
+		c03TagSnippets[t] = "{% " + t + " %}"
 	}
 }
 
@@ -485,19 +498,33 @@ func c03Gen(tp *Tapes) *c03Spec {
 	sp.Shared = g.Draw(2) == 1
 	sp.NLoad = 1 + g.Draw(2)
 	sp.OnDisk = map[string]int{}
+	isExtra := func(n string) bool {
+		return strings.HasPrefix(n, "probe_") && len(n) > len("probe_t0") || (strings.HasPrefix(n, "probe_") && n[len(n)-1] > '1')
+	}
 	var allTags []string
 	for _, t := range pongo2.VerifRegisteredTags() {
-		if _, ok := c03TagSnippets[t]; ok {
+		if _, ok := c03TagSnippets[t]; ok && !isExtra(t) {
 			allTags = append(allTags, t)
 		}
 	}
-	allFilters := pongo2.VerifRegisteredFilters()
+	var allFilters []string
+	for _, f := range pongo2.VerifRegisteredFilters() {
+		if !isExtra(f) {
+			allFilters = append(allFilters, f)
+		}
+	}
 	pickTarget := func() (bool, string) {
 		if g.Draw(2) == 0 {
+			if g.Draw(5) == 0 {
+				return true, extraProbeTags[g.Draw(len(extraProbeTags))]
+			}
 			return true, allTags[g.Draw(len(allTags))]
 		}
-		if g.Draw(3) == 0 {
+		switch g.Draw(6) {
+		case 0, 1:
 			return false, []string{"probe_f0", "probe_f1"}[g.Draw(2)]
+		case 2:
+			return false, extraProbeFilters[g.Draw(len(extraProbeFilters))]
 		}
 		return false, allFilters[g.Draw(len(allFilters))]
 	}
@@ -746,7 +773,9 @@ func (s *c03Side) do(i int, op c03Op, withBans bool) (r *c03Res) {
 			s.w.active = map[int]int{}
 		}
 		if op.Fault {
-			s.w.Plan = []FaultSpec{{Site: KGet, Task: -1, Op: -1, Occ: 0, Fault: FGetEIO, Match: op.MainName, Disk: -1}}
+			// (every loader of the stack fails to open the file during this op: with a shadow copy
+			// behind the second loader a single failure would legitimately fall through to it)
+			s.w.Plan = []FaultSpec{{Site: KGet, Task: -1, Op: -1, Occ: 0, Fault: FGetEIO, Match: op.MainName, Disk: -1, Repeat: -1}}
 			s.w.pathCounts = map[string]int{}
 		}
 		ctx := c03Ctx(s.w, dir)
@@ -835,6 +864,11 @@ func (c03Checker) Run(tp *Tapes, opt RunOpt) *Outcome {
 			d = sp.OnDisk[k[:i]]
 		}
 		disks[d].Files[k] = []FileVer{{Content: sp.Files[k]}}
+		if d == 0 && sp.NLoad == 2 {
+			// the later loader holds a harmless file of the same name: never visible, the first
+			// loader that has a name wins - also when what it has does not compile
+			disks[1].Files[k] = []FileVer{{Content: "(shadow copy behind the second loader)"}}
+		}
 	}
 	mk := func() *c03Side {
 		w := NewWorld(disks)
